@@ -95,6 +95,37 @@ def work_admm(task):
                         if got.tobytes() != base.tobytes():
                             acc.fail(dict(case0, form=tn, v=v),
                                      f"lambda={v} as {tn} and as float give different Theta")
+            # scalar vs constant matrix under an adaptive rho callback (terms that depend on rho may not be cached)
+            from checks.c02 import boyd
+            for v in (0.25, 1.0):
+                acc.n += 1
+                a = admm.admm_optimize_theta(S.copy(), float(v), W, N, rho=1.0, rho_update=boyd, max_iterations=300).theta
+                b = admm.admm_optimize_theta(S.copy(), np.full((n, n), float(v)), W, N, rho=1.0, rho_update=boyd,
+                                             max_iterations=300).theta
+                if a.tobytes() != b.tobytes():
+                    acc.fail(dict(case0, form="matrix+callback", v=v),
+                             f"lambda={v} with a rho_update callback: float and constant matrix give different Theta "
+                             f"(max diff {float(np.max(np.abs(a - b))):.3g})")
+            # the covariance floor in every scalar type, through the real optimisation phase: 2^-13 squared
+            # underflows in float16, entries the solver leaves just above zero sit below it
+            from checks.c03 import run_phase
+            base_eps = None
+            for (tn, x) in (("float", 2.0 ** -13), ("np.float64", np.float64(2.0 ** -13)), ("np.float32", np.float32(2.0 ** -13)),
+                            ("np.float16", np.float16(2.0 ** -13))):
+                acc.n += 1
+                try:
+                    th = run_phase(N, W, [S], 1.0, x).clusters[0].train_inverse
+                except np.linalg.LinAlgError:
+                    continue
+                except Exception as ex:
+                    acc.fail(dict(case0, form=tn, v="eps"), f"floor 2^-13 as {tn} raises {type(ex).__name__}: {ex}")
+                    continue
+                if base_eps is None:
+                    base_eps = th
+                elif th.tobytes() != base_eps.tobytes():
+                    acc.fail(dict(case0, form=tn, v="eps"),
+                             f"min_meaningful_covariance = 2^-13 as {tn} and as float give different MRFs "
+                             f"({int(np.sum(th != base_eps))} entries differ)")
             # narrow NumPy scalar types holding a value that is NOT a small dyadic: the same numeric value
             # as a Python number must give the same Theta (products must not be formed in the narrow dtype)
             for (tn, x) in (("np.float32", np.float32(0.11)), ("np.float16", np.float16(0.3)),
@@ -247,7 +278,7 @@ def run(ctx):
         "{0,0.25,0.5,1,2} as float/np.float64/np.float32/np.float16/int/np.int64/np.int32/np.uint8 (where exact) "
         "bitwise, plus non-dyadic values held in narrow dtypes (np.float32(0.11), np.float16(0.3), np.uint8(100), "
         "np.int8(50)) vs the Python number of the same value, and window sizes 1..4 in ascending and descending order "
-        "within one process; (ii) every table over {0,1,3}^(T*K), T*K<=6 (thorough 8): beta in {0,0.5,1,2,5} in every scalar "
+        "within one process, scalar vs matrix under a residual-balancing rho callback, the covariance floor 2^-13 as float/np.float64/np.float32/np.float16 through the optimisation phase; (ii) every table over {0,1,3}^(T*K), T*K<=6 (thorough 8): beta in {0,0.5,1,2,5} in every scalar "
         "type and as float64/float32/int64 constant vector: identical labels and cost; (iii) driver k2a, every "
         "2nd (thorough: every) initial labelling, through ticc_labels: lambda=1, beta=2, eps=0 and eps=0.25 each "
         "in every equivalent form: all result fields bitwise equal; the same through ticc_joint_labels on the 3-series driver j3 (every 16th initial labelling; thorough every 4th). non-trivial = comparisons where both forms "
